@@ -167,7 +167,7 @@ theorem ghash_blocks_in_sealAsm_openAsm :
     ∧ (scanRb (erased Gen.ListAmd64Gcm.sealAsm) = sealRb ∧ countMn .VPSRLW (erased Gen.ListAmd64Gcm.sealAsm) = sealRb.length)
     ∧ (scanRb (erased Gen.ListAmd64Gcm.openAsm) = openRb ∧ countMn .VPSRLW (erased Gen.ListAmd64Gcm.openAsm) = openRb.length)
     ∧ ((sealMulRed ++ openMulRed).all mulRedOK = true ∧ (sealRb ++ openRb).all rbOK = true
-      ∧ sealMulRed.length = 22 ∧ openMulRed.length = 25) :=
+      ∧ sealMulRed.length = 22 ∧ openMulRed.length = 25 ∧ sealRb.length = 22 ∧ openRb.length = 25) :=
   ghash_blocks_fused
 
 /-- a hit of the scanner is an occurrence of the block, and a covered register assignment satisfies A1 -/
